@@ -70,7 +70,7 @@ class C06(Check):
     id = "C06"
     level = "exploration"
     rule = ("E-in. (a) partitions: every base of B1 (256), of all 3160 pairs over the 80-class alphabet of {a,b}, all 256 "
-            "duplicated pairs (a conditional with its secondary syntactic form), every <=3-subset of the 30 literal/fact "
+            "duplicated pairs (a conditional with its secondary syntactic form) and all 256 pairs of a conditional with itself, every <=3-subset of the 30 literal/fact "
             "conditionals over {a,b,c} (4525), and the empty base, in both modes, through consistency() and "
             "consistency_indices(); oracle: the ordered tolerance partition by brute force, compared layer by layer as "
             "multisets of keys (and object identity for the object variant). (b) diagnostics: one base per semantic "
@@ -90,6 +90,7 @@ class C06(Check):
         alpha = scopes.C2_sub()
         bases += [[c1, c2] for c1, c2 in itertools.combinations(alpha, 2)]
         bases += [[c1, c2] for c1, c2 in zip(scopes.C2, scopes.C2S)]
+        bases += [[c1, c1] for c1 in scopes.C2]        # the same conditional twice (identical formulas, two keys)
         self.n2 = len(bases)
         for i in range(0, len(bases), 60):
             out.append(("part", scopes.SIG2, bases[i:i + 60], (i // 60 + seed) % 3 == 0))
@@ -131,13 +132,17 @@ class C06(Check):
         if task[0] == "part":
             _k, sig, bases, via_parse = task
             full = forms.allmask(sig)
-            for conds in bases:
+            for bi, conds in enumerate(bases):
                 sems = [forms.sem(c, sig) for c in conds]
                 use_parse = via_parse and conds
                 bb = drive.parse_bb(sig, conds) if use_parse else drive.mkbb(sig, conds)
                 for weakly in (False, True):
                     exp = ref_partition_keys(sems, full, weakly)
-                    got = impl_partitions(bb, weakly)
+                    if bi % 5 == 2:       # a slice of the bases with the library's DEBUG logging switched on
+                        with drive.debug_logging():
+                            got = impl_partitions(bb, weakly)
+                    else:
+                        got = impl_partitions(bb, weakly)
                     res.evals += 2
                     dig.append(repr(got))
                     res.outcomes.add(repr(exp)[:40])
